@@ -56,7 +56,16 @@ def check(ctx: Ctx, ev: Evidence) -> list[Finding]:
             if has00:
                 rep("C06-R1", f"(0,0) requested in {fn} with metadata missing = {mm}", mm is True, "the metadata request (0,0) is emitted although the Metadata PDU was received", e, x.site)
             sos, eos = p.get("start_of_scope"), p.get("end_of_scope")
-            if fn == "_deferred_lost_segment_handling":
+            # the three NAK kinds are told apart by what they request, not by the name of the function that builds them
+            if repr(eos) == "$_DestFileParams.file_size_eof" or any("tracker.lost_segments" in repr(t) for t in items):
+                kind = "deferred"
+            elif any("last_end_offset" in repr(t) for t in items) or "pkt.offset" in repr(eos):
+                kind = "immediate"
+            elif mm is True:
+                kind = "before-metadata"
+            else:
+                kind = "unknown"
+            if kind == "deferred":
                 others = [t for t in items if not (isinstance(t, Tup) and t.items == (0, 0))]
                 from_tracker = all("tracker.lost_segments" in repr(t) and "lin" not in repr(t) for t in others)
                 ok = sos == 0 and repr(eos) == "$_DestFileParams.file_size_eof" and from_tracker and not (isinstance(reqs, Lst) and reqs.more)
@@ -66,27 +75,29 @@ def check(ctx: Ctx, ev: Evidence) -> list[Finding]:
                     "the deferred procedure sends a NAK although nothing is recorded missing", e, x.site)
                 if not items:
                     rep("C06-R3", "deferred NAK with an empty request list", False, "a NAK PDU without segment requests is built", e, x.site)
-            elif fn == "_lost_segment_handling":
+            elif kind == "immediate":
                 ok = sos == 0 and len(items) == 1 and isinstance(items[0], Tup) and repr(items[0].items[0]) == "$_AckedModeParams.last_end_offset" and repr(items[0].items[1]) == "pkt.offset" \
                     and "pkt.offset" in repr(eos) and "len(pkt.file_data)" in repr(eos)
                 rep("C06-R3", f"immediate NAK: scope=({sos!r}, {eos!r}), request={items[0] if items else None!r}", ok,
                     "an immediate NAK does not request exactly (end of the last segment, start of this segment) within scope (0, offset + length)", e, x.site)
-            elif fn == "_handle_fd_without_previous_metadata":
+            elif kind == "before-metadata":
                 ok = sos == 0 and all(isinstance(t, Tup) and (t.items == (0, 0) or (t.items[0] == 0 and t.items[1] == eos)) for t in items) and bool(items)
                 rep("C06-R3", f"NAK before metadata: scope=({sos!r}, {eos!r}), requests={items!r}", ok, "the NAK sent for file data without metadata does not request (0,0) / (0, progress) within scope (0, progress)", e, x.site)
             else:
-                rep("C06-R3", f"NAK built in unexpected function {fn}", False, f"a NAK PDU is built in {fn}", e, x.site)
-        done = [x for x in evs if x.kind == "store" and x.name == "_AckedModeParams.deferred_lost_segment_detection_active" and x.args[0] is False and x.func.endswith("_deferred_lost_segment_handling")]
+                rep("C06-R3", f"NAK of unrecognised shape built in {fn}: scope=({sos!r}, {eos!r}) requests={items!r}", False, f"a NAK PDU with scope ({sos!r}, {eos!r}) and requests {items!r} matches none of the three NAK procedures", e, x.site)
+        done = [x for x in evs if x.kind == "store" and x.name == "_AckedModeParams.deferred_lost_segment_detection_active" and x.args[0] is False and not x.func.endswith("__init__")]
         for x in done:
             i = evs.index(x)
-            later_nak = [y for y in evs[i:] if y.kind == "pdu" and y.name == "NAK" and y.func.endswith("_deferred_lost_segment_handling")]
+            later_nak = [y for y in evs[i:] if y.kind == "pdu" and y.name == "NAK"]
             completes = any(y.kind == "store" and y.name == "DestStateWrapper.step" and ename(y.args[0]) == "TRANSFER_COMPLETION" for y in evs[max(0, i - 3):i + 1])
             rep("C06-R4", f"nothing missing: deferred procedure ends with completion={completes}, NAKs afterwards={len(later_nak)}", completes and not later_nak,
                 "with nothing recorded missing the deferred procedure does not proceed to completion without sending a NAK", e, x.site)
     # ---- R2 syntax tree of the deferred builder
-    fi = prog.functions.get(DH + "._deferred_lost_segment_handling")
-    if fi is None:
-        raise AnalysisError("_deferred_lost_segment_handling not found")
+    # anchor by content: the function of the destination handler that asks the library for the NAK capacity
+    cands = [f for f in prog.functions.values() if f.cls == DH and any(isinstance(n, ast.Call) and "get_max_seg_reqs_for_max_packet_size_and_pdu_cfg" in ast.unparse(n.func) for n in ast.walk(f.node))]
+    if len(cands) != 1:
+        raise AnalysisError(f"deferred NAK builder not found (functions deriving the NAK capacity: {len(cands)})")
+    fi = cands[0]
     caps = [s for s in ast.walk(fi.node) if isinstance(s, ast.Assign) and isinstance(s.value, ast.Call) and "get_max_seg_reqs_for_max_packet_size_and_pdu_cfg" in ast.unparse(s.value.func)]
     ok = len(caps) == 1 and "max_packet_len" in ast.unparse(caps[0].value.args[0]) and "pdu_conf" in ast.unparse(caps[0].value.args[1])
     cap = ast.unparse(caps[0].targets[0]) if caps else "?"
@@ -121,9 +132,11 @@ def check(ctx: Ctx, ev: Evidence) -> list[Finding]:
     if not okr:
         out.append(Finding("C06-R2", f"{fi.qualname} | remainder", "requests left in the batch after the loop are not sent", loc(fi, lp)))
     # ---- R5
-    f5 = prog.functions.get(DH + "._handle_no_error_eof")
-    if f5 is None:
-        raise AnalysisError("_handle_no_error_eof not found")
+    # anchor by content: the function comparing the progress with the EOF's file size
+    c5 = [f for f in prog.functions.values() if f.cls == DH and any(isinstance(n, ast.Compare) and "progress" in ast.unparse(n.left) and "file_size_eof" in ast.unparse(n) and not isinstance(n.ops[0], (ast.Is, ast.IsNot)) and "offset" not in ast.unparse(n) for n in ast.walk(f.node))]
+    if not c5:
+        raise AnalysisError("no function of the destination handler compares the progress with the EOF file size")
+    f5 = c5[0]
     gt = lt = False
     for n in ast.walk(f5.node):
         if isinstance(n, ast.Compare) and len(n.ops) == 1 and "progress" in ast.unparse(n.left) and "file_size_eof" in ast.unparse(n.comparators[0]):
